@@ -55,3 +55,86 @@ def filter_callable(run):
         exp = [x for x in data if PREDICATES[p](x)]
         run.check([l, p], isinstance(got, ListOfDicts) and same_objects(got, exp) and plain(data) == before,
                   expected=exp, got=got, clause="seq=select_by(self,function)")
+
+
+def mk(l):
+    return ListOfDicts(copy.deepcopy(l))
+
+
+def simple(name, gen, call, expect, bound, clause="seq"):
+    """Driver: result must be a ListOfDicts whose plain contents equal expect(...) and the
+    receiver's contents must be unchanged (unless the method is an editing one)."""
+    @driver(name)
+    def _d(run):
+        run.bound = bound(run)
+        for inp in run.inputs(gen(run)):
+            l = inp[0]
+            data = mk(l)
+            before = plain(data)
+            try:
+                got = call(data, *inp[1:])
+                gotp = plain(got) if isinstance(got, ListOfDicts) else ("not a ListOfDicts", got)
+            except Exception as e:      # totality
+                gotp = f"raised {type(e).__name__}: {e}"
+            exp = expect(copy.deepcopy(l), *inp[1:])
+            run.check(list(inp), gotp == exp and plain(data) == before, expected=exp, got=gotp, clause=clause)
+    return _d
+
+
+def B(run):
+    return f"all lists of <= {maxlen(run)} dicts over keys a,b with values in {{missing,None,0,1}}"
+
+
+KV1 = [("a", v) for v in VALUES] + [("b", 1)]
+
+
+def full_lists(maxlen_):
+    """lists whose dicts all have both keys (precondition of key-based methods)"""
+    ds = [{"a": x, "b": y} for x in VALUES for y in VALUES]
+    for n in range(maxlen_ + 1):
+        for combo in itertools.product(ds, repeat=n):
+            yield [dict(d) for d in combo]
+
+
+simple("dataiter/list_of_dicts.py::ListOfDicts.filter[key=value x1]",
+       lambda run: ((l, k, v) for l in full_lists(maxlen(run)) for k, v in KV1),
+       lambda d, k, v: d.filter(**{k: v}), lambda l, k, v: [x for x in l if x[k] == v], B)
+simple("dataiter/list_of_dicts.py::ListOfDicts.filter[key=value x2]",
+       lambda run: ((l, va, vb) for l in full_lists(maxlen(run)) for va in VALUES for vb in VALUES),
+       lambda d, va, vb: d.filter(a=va, b=vb), lambda l, va, vb: [x for x in l if x["a"] == va and x["b"] == vb], B)
+simple("dataiter/list_of_dicts.py::ListOfDicts.filter_out[key=value x1]",
+       lambda run: ((l, k, v) for l in full_lists(maxlen(run)) for k, v in KV1),
+       lambda d, k, v: d.filter_out(**{k: v}), lambda l, k, v: [x for x in l if not x[k] == v], B)
+simple("dataiter/list_of_dicts.py::ListOfDicts.filter_out[key=value x2]",
+       lambda run: ((l, va, vb) for l in full_lists(maxlen(run)) for va in VALUES for vb in VALUES),
+       lambda d, va, vb: d.filter_out(a=va, b=vb),
+       lambda l, va, vb: [x for x in l if not (x["a"] == va and x["b"] == vb)], B)
+simple("dataiter/list_of_dicts.py::ListOfDicts.filter_out[callable]",
+       lambda run: ((l, p) for l in lists(maxlen(run)) for p in PREDICATES),
+       lambda d, p: d.filter_out(PREDICATES[p]), lambda l, p: [x for x in l if not PREDICATES[p](x)], B)
+
+NS = [0, 1, 2, 3, 5]
+simple("dataiter/list_of_dicts.py::ListOfDicts.head", lambda run: ((l, n) for l in lists(maxlen(run)) for n in NS),
+       lambda d, n: d.head(n), lambda l, n: l[:min(n, len(l))], B)
+simple("dataiter/list_of_dicts.py::ListOfDicts.tail", lambda run: ((l, n) for l in lists(maxlen(run)) for n in NS),
+       lambda d, n: d.tail(n), lambda l, n: l[len(l) - min(n, len(l)):], B)
+simple("dataiter/list_of_dicts.py::ListOfDicts.head[n=None]", lambda run: ((l,) for l in lists(maxlen(run))),
+       lambda d: d.head(), lambda l: l[:3], B)
+simple("dataiter/list_of_dicts.py::ListOfDicts.append",
+       lambda run: ((l, x) for l in lists(maxlen(run)) for x in dicts()),
+       lambda d, x: d.append(x), lambda l, x: l + [x], B)
+simple("dataiter/list_of_dicts.py::ListOfDicts.__add__",
+       lambda run: ((l, m) for l in lists(maxlen(run) - 1) for m in lists(maxlen(run) - 1)),
+       lambda d, m: d + mk(m), lambda l, m: l + m, B)
+simple("dataiter/list_of_dicts.py::ListOfDicts.extend[ListOfDicts argument]",
+       lambda run: ((l, m) for l in lists(maxlen(run) - 1) for m in lists(maxlen(run) - 1)),
+       lambda d, m: d.extend(mk(m)), lambda l, m: l + m, B)
+simple("dataiter/list_of_dicts.py::ListOfDicts.reverse", lambda run: ((l,) for l in lists(maxlen(run))),
+       lambda d: d.reverse(), lambda l: l[::-1], B)
+IDX = [None, -4, -2, -1, 0, 1, 2, 4]
+simple("dataiter/list_of_dicts.py::ListOfDicts.__getitem__[slice lo:hi]",
+       lambda run: ((l, a, b) for l in lists(maxlen(run)) for a in IDX for b in IDX),
+       lambda d, a, b: d[a:b], lambda l, a, b: l[a:b], B)
+simple("dataiter/list_of_dicts.py::ListOfDicts.insert",
+       lambda run: ((l, i, x) for l in lists(maxlen(run)) for i in IDX[1:] for x in [{"a": 1}, {}]),
+       lambda d, i, x: d.insert(i, x), lambda l, i, x: (l.insert(i, x), l)[1], B)
